@@ -269,8 +269,9 @@ class Run:
             'wall_s': round(wall, 2),
             'violations': len(real),
         }
-        os.makedirs(os.path.join(VERIF, 'evidence'), exist_ok=True)
-        evpath = os.path.join(VERIF, 'evidence', f'{self.prop}.json')
+        evdir = os.environ.get('VERIF_EVIDENCE_DIR') or os.path.join(VERIF, 'evidence')  # (mutant self-tests write elsewhere)
+        os.makedirs(evdir, exist_ok=True)
+        evpath = os.path.join(evdir, f'{self.prop}.json')
         with open(evpath + '.tmp', 'w', encoding='utf8') as fh:
             json.dump(evidence, fh, indent=1, default=repr)
         os.replace(evpath + '.tmp', evpath)
@@ -280,7 +281,8 @@ class Run:
 
         counters_txt = ' '.join(f'{k}={v}' for k, v in sorted(self.counters.items()))
         if real:
-            os.makedirs(os.path.join(VERIF, 'replays'), exist_ok=True)
+            rdir = os.path.join(VERIF, 'replays') if not os.environ.get('VERIF_EVIDENCE_DIR') else os.path.join(os.environ['VERIF_EVIDENCE_DIR'], 'replays')
+            os.makedirs(rdir, exist_ok=True)
             seen = set()
             for vio in real[:20]:
                 body = {'property': self.prop, 'tier': self.tier, 'seed': self.seed, **vio}
@@ -288,7 +290,7 @@ class Run:
                 if rid in seen:
                     continue
                 seen.add(rid)
-                rpath = os.path.join(VERIF, 'replays', f'{self.prop}-{rid}.json')
+                rpath = os.path.join(rdir, f'{self.prop}-{rid}.json')
                 with open(rpath, 'w', encoding='utf8') as fh:
                     json.dump(body, fh, indent=1, default=repr)
                 print(f'VIOLATION property={self.prop} replay={rpath}')
